@@ -230,6 +230,9 @@ func main() {
 			p.Add("histories:batch-fault", p.Counters["histories"]-before)
 		}
 	})
+	if n := total.Counters["nondeterministic_findings_dropped"]; n > 3 {
+		vr.Fatalf("%d batch-fault findings were not reproducible: %v", n, total.Notes)
+	}
 	if n := total.Counters["unconfirmed_findings"]; n > 0 {
 		vr.Fatalf("%d findings did not reproduce on a fresh database (nondeterminism): %v", n, total.Notes)
 	}
@@ -253,11 +256,15 @@ func main() {
 	}
 	// vacuity: every forced error outcome must actually have been observed
 	if os.Getenv("VERIF_FAMILY") == "" {
-		for _, need := range []string{"commit=nil", "commit=conflict", "commit=toobig", "commit=blocked", "set=!toobig", "batch:ok,err", "batch:err,err", "batch:ok,ok"} {
+		for _, need := range []string{"commit=nil", "commit=conflict", "commit=toobig", "commit=blocked", "set=!toobig"} {
 			if verdicts[need] == 0 {
 				vr.Fatalf("vacuous: outcome %q was never observed (verdicts: %v)", need, verdicts)
 			}
 		}
+	}
+	// vacuity of the batch-fault family, stated on what was injected (not on verdicts a defect may change)
+	if os.Getenv("VERIF_FAMILY") == "" && (total.Counters["batch_fault_injected@apply"] == 0 || total.Counters["batch_fault_injected@sync"] == 0 || total.Counters["batch_fault_free_runs"] == 0) {
+		vr.Fatalf("vacuous: batch-fault family injected no fault in the apply or sync phase (%v)", total.Counters)
 	}
 	outcomes := total.Card("outcomes")
 	if os.Getenv("VERIF_FAMILY") == "" {
@@ -273,7 +280,8 @@ func main() {
 		Outcomes:    outcomes,
 		Bounds:      map[string]any{"families": bounds, "quick": r.Quick()},
 		Extra: map[string]any{"histories_per_family": per, "api_calls": total.Counters["steps"], "commits_ok": total.Counters["commits"],
-			"verdicts_observed": verdicts},
+			"verdicts_observed": verdicts, "nondeterministic_findings_dropped": total.Counters["nondeterministic_findings_dropped"],
+			"batch_fault_runs_repeated_because_batch_split": total.Counters["batch_fault_runs_repeated_because_batch_split"]},
 		Assumptions: []string{
 			"the stored versions are read through DB.NewInternalIterator (every version, all containers) and GetVersionedEntry; the engine-internal key !NoKV!discard is ignored",
 			"'throttled' is exercised through db.applyThrottle (the LSM back-pressure callback): Commit waits in sendToWriteCh and can only fail when the DB is closed meanwhile; the commit runs in one helper goroutine, every other call is sequential",
